@@ -119,6 +119,10 @@ pub struct Swarm {
     /// crash debris older than the age limit in the temporary directories of
     /// the read-only levels
     pub ro_debris: bool,
+    /// the first copy of the key is a truncated copy of its value (0 bytes, or
+    /// exactly 64 KiB of a longer value); applied only where a strict checker
+    /// must then reject the pair
+    pub trunc_first: Option<usize>,
 }
 
 #[derive(Clone, Debug, PartialEq)]
@@ -166,6 +170,7 @@ pub fn run_point(tape: &mut Tape, pt: &Point, detail: bool) -> MatReport {
         fault_open: if tape.draw(6) == 5 { Some(tape.draw(3) as usize) } else { None },
         fire: tape.draw(4) == 3,
         ro_debris: tape.draw(3) == 2,
+        trunc_first: if tape.draw(6) == 5 { Some(*tape.pick(&[0usize, 65536])) } else { None },
     };
     let nshards = 2 + tape.draw(3) as usize;
     let a = tape.draw(nshards as u64) as usize;
@@ -180,6 +185,27 @@ pub fn run_point(tape: &mut Tape, pt: &Point, detail: bool) -> MatReport {
     let mut fs = new_fs(&kn);
     // a third of the runs are "root": permission bits are not enforced
     fs.cfg.enforce_perms = tape.draw(3) != 2;
+    // a truncated first copy: only with a strict checker, two or more copies
+    // and a lookup that compares them (the expected outcome is then simply
+    // "rejected", whatever the other copies hold)
+    let npresent = pt.cfg.content.iter().filter(|c| **c != 0).count();
+    let strict_kind = matches!(pt.checker, CheckerKind::Recording | CheckerKind::Panicking | CheckerKind::ByteEq);
+    let trunc = match sw.trunc_first {
+        Some(l) if strict_kind && npresent >= 2 && pt.bad_name.is_none() && matches!(pt.op, MOp::Get | MOp::Ensure | MOp::Gou(_)) && !pt.fault_scratch && sw.fault_open.is_none() => Some(l),
+        _ => None,
+    };
+    let mut sw = sw;
+    if trunc == Some(65536) {
+        // the value the truncated copy was cut from is longer than 64 KiB
+        let first_tag = *pt.cfg.content.iter().find(|c| **c != 0).unwrap() as usize;
+        sw.plen[first_tag] = 70_000;
+    }
+    // the built-in byte-equality checker where the point names my recording one
+    let eff_checker = match (trunc, pt.checker) {
+        (Some(_), CheckerKind::Recording) => CheckerKind::ByteEq,
+        (_, c) => c,
+    };
+    let mut first_planted = false;
     // ------------------------------------------------------------ levels
     let nl = pt.cfg.content.len();
     let mut dirs = Vec::new();
@@ -212,7 +238,12 @@ pub fn run_point(tape: &mut Tape, pt: &Point, detail: bool) -> MatReport {
             let future = is_reader && tape.draw(4) == 3;
             let mtime = if future { fs.now + *tape.pick(&[600_000_000_000i64, 3_600_000_000_000]) } else { fs.now - 7_200_000_000_000 - (i as i64) * 1_000_000_000 };
             let marked = tape.draw(2) == 1;
-            fs.plant_file(&format!("{}/{}", phys, cname), &make_value(&cname, c as u32, sw.plen[c as usize]), if is_reader { sw.foreign_mode } else { 0o444 }, if marked { mtime } else { mtime - 120_000_000_000 }, mtime);
+            let mut bytes = make_value(&cname, c as u32, sw.plen[c as usize]);
+            if let (Some(l), false) = (trunc, first_planted) {
+                bytes.truncate(l);
+            }
+            first_planted = true;
+            fs.plant_file(&format!("{}/{}", phys, cname), &bytes, if is_reader { sw.foreign_mode } else { 0o444 }, if marked { mtime } else { mtime - 120_000_000_000 }, mtime);
             // a sibling entry that must never change
             fs.plant_file(&format!("{}/sibling", phys), &make_value("sibling", 9, 3), 0o444, mtime - 120_000_000_000, mtime - 5_000_000_000);
             phys_of[i] = Some(phys);
@@ -243,7 +274,7 @@ pub fn run_point(tape: &mut Tape, pt: &Point, detail: bool) -> MatReport {
         dirs.push(DirSpec { path, kind, capacity: 1_000_000 });
     }
     let reader_idx: Vec<usize> = (0..nl).filter(|i| !(has_writer && *i == 0)).collect();
-    let spec = HandleSpec::Stack { writer: if has_writer { Some(0) } else { None }, readers: reader_idx.clone(), auto_sync: sw.auto_sync, checker: pt.checker };
+    let spec = HandleSpec::Stack { writer: if has_writer { Some(0) } else { None }, readers: reader_idx.clone(), auto_sync: sw.auto_sync, checker: eff_checker };
     let mut w = World::new(fs, &kn, tape, 2, 1, dirs.clone(), WorldCfg { readonly: reader_idx.clone(), check_confined: true, extra_writable: vec![] });
     w.script_trigger(0, vec![], DrawPolicy::Const(if sw.fire { FIRE_NOW } else { u64::MAX }));
     w.script_trigger(1, vec![], DrawPolicy::Const(u64::MAX));
@@ -334,7 +365,7 @@ pub fn run_point(tape: &mut Tape, pt: &Point, detail: bool) -> MatReport {
     // a lenient checker is shown everything a strict one is, and accepts it:
     // results are then those of a stack without checker (first copy wins)
     let strict = has_checker && pt.checker != CheckerKind::Lenient;
-    let all_equal = !strict || present.windows(2).all(|p| content[p[0]] == content[p[1]]);
+    let all_equal = (!strict || present.windows(2).all(|p| content[p[0]] == content[p[1]])) && trunc.is_none();
     let mismatch = |_: ()| -> Exp {
         if pt.checker == CheckerKind::Panicking {
             Exp::Panic
@@ -501,8 +532,8 @@ pub fn run_point(tape: &mut Tape, pt: &Point, detail: bool) -> MatReport {
     // ------------------------------------------------------------ judge
     let mut findings: Vec<MatFinding> = Vec::new();
     let desc = format!(
-        "writer={:?} readers={:?} content={:?} op={:?} populate={:?} checker={:?} bad_name={:?} missing_dirs={} fault_scratch={} futimens_eperm={} temp_mode={:?} foreign_mode={:o} fault_open={:?} fire={} ro_debris={} umask={:o} auto_sync={} judge_reads={} shards={} [{}]",
-        pt.cfg.writer, pt.cfg.readers, pt.cfg.content, pt.op, pt.pop, pt.checker, pt.bad_name, pt.missing_dirs, pt.fault_scratch, sw.futimens_eperm, sw.temp_mode, sw.foreign_mode, open_fault_path, sw.fire, sw.ro_debris, sw.umask, sw.auto_sync, sw.judge_reads, nshards, kn.describe()
+        "writer={:?} readers={:?} content={:?} op={:?} populate={:?} checker={:?} bad_name={:?} missing_dirs={} fault_scratch={} futimens_eperm={} temp_mode={:?} foreign_mode={:o} fault_open={:?} fire={} ro_debris={} truncated_first_copy={:?} umask={:o} auto_sync={} judge_reads={} shards={} [{}]",
+        pt.cfg.writer, pt.cfg.readers, pt.cfg.content, pt.op, pt.pop, pt.checker, pt.bad_name, pt.missing_dirs, pt.fault_scratch, sw.futimens_eperm, sw.temp_mode, sw.foreign_mode, open_fault_path, sw.fire, sw.ro_debris, trunc, sw.umask, sw.auto_sync, sw.judge_reads, nshards, kn.describe()
     );
     let mut fail = |prop: &'static str, class: &str, msg: String| {
         findings.push(MatFinding { prop, v: Violation::new(class, msg).attr("op", format!("{:?}", pt.op)) });
@@ -580,7 +611,9 @@ pub fn run_point(tape: &mut Tape, pt: &Point, detail: bool) -> MatReport {
                 None => a.is_empty(),
                 Some(t) => tags == vec![Some(t)],
             };
-            if !ok && matches {
+            // (a truncated planted copy does not parse as a value: its tree is
+            // still compared through the rewritten-clause below)
+            if !ok && matches && trunc.is_none() {
                 fail(result_prop, "write-side", format!("write side holds {:?} for the key, expected {:?}", a.iter().map(|(p, _, d)| (p.clone(), describe_bytes(d))).collect::<Vec<_>>(), exp_writer));
             }
             if exp_writer == content[0] && !b.is_empty() && !a.is_empty() && (b[0].1.ino != a[0].1.ino || b[0].1.mtime != a[0].1.mtime) && matches && !matches!(pt.op, MOp::Set | MOp::SetTemp | MOp::Gou(Action::Replace)) {
